@@ -6,7 +6,7 @@
 #   - demo exits 1 with the change and 0 without
 # and stores it as /verif/seeded/Cxx-k/{patch.diff,demo.py,meta.json}.
 prop="$1"; k="$2"; needs="$3"; descr="$4"
-src=/tmp/seed/$prop
+src=${SEED_DIR:-/tmp/seed}/$prop; outk=$((k + ${SEED_OFFSET:-0}))
 [ -f "$src/change_$k.diff" ] || { echo "no change_$k.diff"; exit 2; }
 wt="$(mktemp -d /tmp/confXXXXXX)"; rmdir "$wt"
 git -C /repo worktree add --detach "$wt" HEAD >/dev/null 2>&1 || exit 2
@@ -23,9 +23,9 @@ ok=1
 echo "$suite" | grep -q "3873 passed" || ok=0
 echo "$suite" | grep -q "failed" && ok=0
 if [ $ok -eq 1 ]; then
-  d=/verif/seeded/$prop-$k; mkdir -p $d
+  d=/verif/seeded/$prop-$outk; mkdir -p $d
   cp "$src/change_$k.diff" $d/patch.diff; cp "$src/demo_$k.py" $d/demo.py
-  /venv/bin/python - "$prop" "$k" "$needs" "$descr" "$suite" "$(tail -3 /tmp/conf_mut_$prop$k.txt)" <<'PY'
+  /venv/bin/python - "$prop" "$outk" "$needs" "$descr" "$suite" "$(tail -3 /tmp/conf_mut_$prop$k.txt)" <<'PY'
 import json, sys
 prop, k, needs, descr, suite, mutout = sys.argv[1:7]
 json.dump({
